@@ -1004,7 +1004,7 @@ REQUIRED = ('atoms', 'xlo', 'ylo', 'zlo', 'Atoms', 'Atoms_section')
 @st.composite
 def reject_cases(draw):
     style = draw(G.atom_styles())
-    units = draw(st.sampled_from(('metal', 'real', 'nano', 'electron', 'lj')))
+    units = draw(st.sampled_from(('metal', 'real', 'nano', 'electron', 'si')))
     if not G.style_allowed(style, units):
         units = 'metal'
     subs = style.split()[1:] if style.startswith('hybrid') else [style]
